@@ -93,6 +93,7 @@ type State struct {
 	pend     *Term
 	pendName string
 	spec     bool
+	pinned   map[string]uint64 // variables fixed by concretization (copy-on-write)
 }
 
 type choiceList struct {
